@@ -21,7 +21,7 @@ META = {
                     "reference gridding by construction (events strictly inside cells and magnitude bins)", "tolerance 1e-9*(1+|x|)"],
     "deciding": ["e2e:N", "e2e:S", "e2e:M", "e2e:PL", "e2e:RM", "e2e:MLL", "post:_compute_likelihood", "post:MLL_score", "ties:twin-catalogs"],
 }
-META["added"] = 'Added: MLL full_calculation, events far above the last magnitude edge, file-streamed forecasts with filters, observations gridding exactly like a synthetic catalog (bit-for-bit ties, monitor ties:twin-catalogs).'
+META["added"] = 'Added: MLL full_calculation, events far above the last magnitude edge, file-streamed forecasts with filters, observations gridding exactly like a synthetic catalog (bit-for-bit ties, monitor ties:twin-catalogs). observations with events below the lowest magnitude edge.'
 MANIFEST = {
     "technique": "independent re-implementation of the documented statistics as oracle over the real tests' results; runtime post-conditions on _compute_likelihood / cumulative_square_diff / MLL_score; RNG boundary log (numpy.random.choice) aligning each resampled test-distribution entry with its actual resample; status/None signalling checked on empty and undersampled observations",
     "level_text": "For each generated catalog forecast and observation the six public tests run for real; every test-distribution entry, observed statistic, quantile pair and status is compared with an independent implementation of the documented definition fed by reference gridding, including the explicit signalling of undefined statistics (empty observation -> not-valid / None; empty synthetic catalogs skipped where undefined; events in never-sampled cells excluded and flagged 'undersampled').",
@@ -46,7 +46,7 @@ def gen(rng, obs_mode=None, empty_mode=None):
         if empty_mode == "some" and j % 2:
             n = 0
         cats.append([(int(rng.choice(hot)), int(min(nmag - 1, rng.geometric(0.5) - 1))) for _ in range(n)])
-    mode = obs_mode or str(rng.choice(["normal", "normal", "empty", "single", "dense", "unsampled-some", "unsampled-all", "twin"]))
+    mode = obs_mode or str(rng.choice(["normal", "normal", "empty", "single", "dense", "unsampled-some", "unsampled-all", "twin", "below-min"]))
     sampled = sorted({c for cat in cats for c, _ in cat})
     unsampled = [c for c in range(ncell) if c not in sampled]
     pool = sampled or list(range(ncell))
@@ -68,7 +68,10 @@ def gen(rng, obs_mode=None, empty_mode=None):
         obs = [(int(rng.choice(unsampled)), int(rng.integers(0, nmag))) for _ in range(int(rng.integers(1, 4)))]
     else:
         obs = [(int(rng.choice(pool)), int(rng.integers(0, nmag))) for _ in range(int(rng.integers(1, 25)))]
-    return {"nx": nx, "ny": ny, "nmag": nmag, "cats": cats, "obs": obs, "obs_mode": mode,
+    below = 0
+    if mode == "below-min" and obs:
+        below = int(rng.integers(1, 4))          # extra observed events BELOW the lowest magnitude edge: they fall in no magnitude bin
+    return {"nx": nx, "ny": ny, "nmag": nmag, "cats": cats, "obs": obs, "obs_mode": mode, "obs_below": below,
             "dh": str(rng.choice(["0.1", "0.5"])), "ax": str(rng.choice(["10", "-125.4"])), "ay": str(rng.choice(["31.5", "-40"]))}
 
 
@@ -78,7 +81,7 @@ def build(fc, source, tmp):
     mags = fixtures.mag_bins("4.95", "0.1", fc["nmag"])
     reg = fixtures.region(fc["nx"], fc["ny"], fc["dh"], fc["ax"], fc["ay"], magnitudes=mags)
 
-    def mk(evs, cid=None, name=None):
+    def mk(evs, cid=None, name=None, below=0):
         if not evs:
             return fixtures.catalog([], [], [], region=reg, catalog_id=cid, name=name)
         cells = numpy.array([e[0] for e in evs])
@@ -88,6 +91,11 @@ def build(fc, source, tmp):
         # the last magnitude bin is open-ended: every other last-bin event lies far above the last edge
         far = (k == fc["nmag"] - 1) & ((numpy.arange(len(evs)) + cells) % 2 == 0)
         mv = numpy.where(far, mags[-1] + 2.35, mv)
+        if below:
+            # events of the same cells with a magnitude below the lowest bin edge, interleaved at the front
+            lons = numpy.concatenate([lons[:below], lons])
+            lats = numpy.concatenate([lats[:below], lats])
+            mv = numpy.concatenate([numpy.full(min(below, len(evs)), float(mags[0]) - 0.25), mv])
         return fixtures.catalog(lons, lats, mv, region=reg, catalog_id=cid, name=name)
     cats = [mk(evs, j) for j, evs in enumerate(fc["cats"])]
     if source == "memory":
@@ -102,7 +110,7 @@ def build(fc, source, tmp):
             kw = {"filters": ["magnitude >= 4.95"], "apply_filters": True}
         c12.write_file(path, rows, [True] * len(rows), True, "frac")
         f = csep.load_catalog_forecast(path, region=reg, store=(source == "file_store"), name="cf", **kw)
-    return f, mk(fc["obs"], name="obs"), reg, mags
+    return f, mk(fc["obs"], name="obs", below=fc.get("obs_below", 0)), reg, mags
 
 
 # ---------------------------------------------------------------------------------------------
@@ -225,6 +233,16 @@ def _run(ctx, fc, source, seed, tmp, rc, ce):
     def fresh():
         return build(fc, source, tmp)
     ctx.count(6)
+    if fc.get("obs_below"):
+        # the observation holds events below the lowest magnitude edge: only the magnitude-gridded tests have a defined reference here
+        # (N_obs of those tests = number of GRIDDED observed events)
+        tags["obs_below_min_mag"] = True
+        if nbar == 0:
+            return
+        _run_mag(ctx, fc, source, seed, rc, ce, tags, G, O, J, n_obs, fresh)
+        if nt:
+            ctx.nt(digest((fc, source)))
+        return
     # ---------------- N
     f, obs, reg, mags = fresh()
     ok, res, tb = ctx.call(ce.number_test, f, obs, verbose=False)
@@ -304,6 +322,12 @@ def _run(ctx, fc, source, seed, tmp, rc, ce):
         elif status == "normal":
             twins = sum(1 for g in G if g.sum() > 0 and numpy.array_equal(g.sum(axis=1), obs_sp))
             check_twins(ctx, rc, t2, nm, res, twins)
+    _run_mag(ctx, fc, source, seed, rc, ce, tags, G, O, J, n_obs, fresh)
+    if nt:
+        ctx.nt(digest((fc, source)))
+
+
+def _run_mag(ctx, fc, source, seed, rc, ce, tags, G, O, J, n_obs, fresh):
     # ---------------- M, RM, MLL
     union = sum(G).sum(axis=0)
     n_u = float(union.sum())
@@ -359,8 +383,6 @@ def _run(ctx, fc, source, seed, tmp, rc, ce):
             check_twins(ctx, rc, t2, nm, res, twins)
         if res.status != "normal":
             ctx.violate("%s-test status" % nm, rc, observed=res.status, expected="normal", tags=dict(t2, clause="status"))
-    if nt:
-        ctx.nt(digest((fc, source)))
 
 
 def install(ctx):
